@@ -833,3 +833,96 @@ func ruleRwNoDecl(c *Ctx) {
 }
 
 var _ = ast.IsExported
+
+// ruleStackRerun: a Seq *value* that is run again and again (the optimiser strips the
+// per-iteration Delay around Bind(<literal>), Combine, loops …, so one value serves every
+// round of the enclosing loop) must reach its caller-supplied functions at the same depth
+// in every run. A wrapper stacked onto a captured argument on each run (transparent to the
+// trace rules) makes run n call n frames deep: depth then grows with the number of rounds.
+func (s *seqRT) ruleStackRerun() {
+	c := s.c
+	const runs = 4
+	type ctorCase struct {
+		name   string
+		args   []AV
+		resume bool // the value suspends (Bind): the caller-supplied thunk runs in the resumption
+	}
+	for _, cc := range []ctorCase{
+		{"Bind", []AV{Sym{Name: "yv"}, Sym{Name: "f", NN: true}}, true},
+		{"BindRecv", []AV{Sym{Name: "yv"}, Sym{Name: "f", NN: true}}, true},
+		{"Delay", []AV{Sym{Name: "f", NN: true}}, false},
+		{"Combine", []AV{Sym{Name: "s1", NN: true}, Sym{Name: "s2", NN: true}}, false},
+	} {
+		fn := s.w.FuncOpt(pathSeq, cc.name)
+		if fn == nil {
+			continue
+		}
+		pos := s.w.FnPos(fn)
+		in := s.interp()
+		in.MaxDepth = 40
+		in.MaxRecur = runs + 4
+		seq, st, ok := s.construct(in, "SEQ.STACK.HEIGHT", cc.name, cc.args)
+		if !ok {
+			continue
+		}
+		construct := cc.name + " value run repeatedly"
+		var depths []int
+		failed := ""
+		for i := 0; i < runs && failed == ""; i++ {
+			mark := len(st.Events)
+			outs := in.Apply(st, seq, []AV{symC(), symK()})
+			if len(outs) != 1 || outs[0].Panicked {
+				failed = "a run of the value is not a single path"
+				break
+			}
+			st = outs[0].St
+			if cc.resume {
+				var stepRef AV
+				for _, e := range st.Events[mark:] {
+					if e.Kind == "store" && e.Target == "c.step" && len(e.Args) == 1 {
+						stepRef = e.Args[0]
+					}
+				}
+				obj := st.Obj(stepRef)
+				if obj == nil || closureField(obj) == "" {
+					failed = "the value does not suspend by storing a step with a resumption"
+					break
+				}
+				o2 := in.Apply(st, obj.Fields[closureField(obj)], []AV{Sym{Name: "recv"}})
+				if len(o2) != 1 || o2[0].Panicked {
+					failed = "the resumption is not a single path"
+					break
+				}
+				st = o2[0].St
+			}
+			d := -1
+			for _, e := range st.Events[mark:] {
+				if e.Kind == "call" && e.Fn == nil {
+					if sy, ok := e.Callee.(Sym); ok && (sy.Name == "f" || sy.Name == "s1") {
+						d = strings.Count(e.Stack, " > ") + 1
+						break
+					}
+				}
+			}
+			if d < 0 {
+				failed = "the caller-supplied function is not called in a run"
+				break
+			}
+			depths = append(depths, d)
+		}
+		s.account(in)
+		if failed != "" {
+			c.und("SEQ.STACK.HEIGHT", construct, pos, failed)
+			continue
+		}
+		grows := false
+		for i := 1; i < len(depths); i++ {
+			if depths[i] > depths[i-1] {
+				grows = true
+			}
+		}
+		c.check(!grows, "SEQ.STACK.HEIGHT", construct, pos,
+			fmt.Sprintf("%d runs of one %s value reach the caller-supplied function at the same abstract stack depth %v", runs, cc.name, depths),
+			fmt.Sprintf("each run of the same %s value reaches the caller-supplied function deeper than the run before (abstract stack depths %v): a wrapper is stacked on per run, so depth grows with the number of rounds of the enclosing loop once the optimiser has stripped the per-round Delay", cc.name, depths))
+	}
+}
